@@ -234,6 +234,14 @@ def run(case: dict, ctx) -> dict:
     if k == "plain":
         nsec = rng.randrange(1, 300)
         raw = bytes(rng.getrandbits(8) for _ in range(64)) * (nsec * 8)
+        nested = rng.random() < 0.3
+        if nested:
+            # guest data that itself begins with a (parseable) Parallels image header - an image stored raw at sector 0 of the
+            # guest disk: the descriptor says Plain, so these are plain bytes
+            inner, _, _ = w.build_hds(rng, version=rng.choice([1, 2]), m_sectors=8, nclusters=rng.randrange(1, 20), tag=rng.getrandbits(32))
+            ib = inner.to_bytes()[: len(raw)]
+            raw = ib + raw[len(ib):]
+        res["cnt"]["plain_images_starting_like_an_hds"] = int(nested)
         d = ctx.tmpdir()
         hd = os.path.join(d, "p.hdd")
         g = w.DEFAULT_TOP
